@@ -188,9 +188,9 @@ def make_pop_body(kind, n_workers, n_queued, producers, offset_opts=(0, 2), coar
             how = sx.choose(["enqueue", "add-waiting"], f"q{q}.how")
             v = sx.sym_real(f"q{q}_x")
             if how == "enqueue":
-                main.enqueue_trial({"x": v, "c": "b"}, user_attrs={"q": q})
+                main.enqueue_trial({"x": v, "c": "b", "n": None}, user_attrs={"q": q})
             else:
-                main.add_trial(create_trial(state=TrialState.WAITING, user_attrs={"q": q}, system_attrs={"fixed_params": {"x": v, "c": "b"}}))
+                main.add_trial(create_trial(state=TrialState.WAITING, user_attrs={"q": q}, system_attrs={"fixed_params": {"x": v, "c": "b", "n": None}}))
             num = main._storage.get_all_trials(sid, deepcopy=False)[-1].number
             qvals[num] = v
         # coarse: scheduling points only before the calls that read or write the queue (the other storage calls of ask() touch the
@@ -213,13 +213,15 @@ def make_pop_body(kind, n_workers, n_queued, producers, offset_opts=(0, 2), coar
                 x = t.suggest_float("x", 0, 1)           # range may not contain the enqueued value: it must still be returned verbatim
                 c = t.suggest_categorical("c", ["a", "b"])
                 y = t.suggest_float("y", 0, 1)           # not enqueued: comes from the sampler
-                got.append((k, t.number, x, c, y, dict(t.user_attrs)))
+                nn = t.suggest_categorical("n", ["z", None])     # None is a legitimate (enqueued) categorical value
+                got.append((k, t.number, x, c, y, dict(t.user_attrs), nn))
                 if k in producers and producers[k] == "ask-then-finish":
                     s.tell(t, 1.0)
                     threading.current_thread().no_yield = False
                     t2 = s.ask()
                     threading.current_thread().no_yield = True
-                    got.append((k, t2.number, t2.suggest_float("x", 0, 1), t2.suggest_categorical("c", ["a", "b"]), None, dict(t2.user_attrs)))
+                    got.append((k, t2.number, t2.suggest_float("x", 0, 1), t2.suggest_categorical("c", ["a", "b"]), None, dict(t2.user_attrs),
+                                t2.suggest_categorical("n", ["z", None])))
             return run
         for k in range(n_workers):
             sched.spawn(worker(k), f"w{k}")
@@ -251,8 +253,9 @@ def make_pop_body(kind, n_workers, n_queued, producers, offset_opts=(0, 2), coar
             nums.append(t.number)
         left = [t.number for t in st0.get_all_trials(sid, deepcopy=False) if t.state == TrialState.WAITING]
         assert not left, f"queued trials {left} are never handed out"
-        for (k, num, x, c, y, ua) in got:
+        for (k, num, x, c, y, ua, nn) in got:
             if num in qvals:
+                assert nn is None, f"enqueued categorical value None was not handed to the worker (got {nn!r})"
                 sx.reach("queued-trial-claimed")
                 conds.append(sx.eq_nan(x, qvals[num]))                  # enqueued value verbatim
                 assert c == "b", f"categorical fixed param lost: {c}"
@@ -262,6 +265,7 @@ def make_pop_body(kind, n_workers, n_queued, producers, offset_opts=(0, 2), coar
                 assert x == 0.75 and c == "a"
             else:
                 assert x == -123.0, f"fresh trial got a fixed value {x}"
+                assert nn == "z", f"fresh trial got a fixed value {nn!r}"
         return sx.all_of(conds) if conds else True
     return body
 
